@@ -75,7 +75,7 @@ func c11Policy(c *Ctx) {
 				}
 				return res
 			},
-			Instr: func(st *State, ins ssa.Instruction) {},
+			Instr:  func(st *State, ins ssa.Instruction) {},
 			Return: func(st *State, ret *ssa.Return, results []Val) {},
 		}
 		// record outcomes as events: wrap Fork to emit
@@ -587,7 +587,9 @@ func c11Shapes(c *Ctx) {
 		n := 0
 		for _, call := range calls(fn, named("desync.NewStoreRouter")) {
 			n++
-			c.verdict(hasOrigin(call.Common().Args[0], func(o string) bool { return strings.Contains(o, "call:cmd.storeGroup#0") || o == "call:builtin:append#0" }), "cmd.multiStoreWithRouter:router", call.Pos(), "the router is built from the store groups in argument order", "the router is not built from storeGroup results")
+			c.verdict(hasOrigin(call.Common().Args[0], func(o string) bool {
+				return strings.Contains(o, "call:cmd.storeGroup#0") || o == "call:builtin:append#0"
+			}), "cmd.multiStoreWithRouter:router", call.Pos(), "the router is built from the store groups in argument order", "the router is not built from storeGroup results")
 		}
 		if n == 0 {
 			c.bad("cmd.multiStoreWithRouter:router", fn.Pos(), "no StoreRouter is built")
